@@ -11,8 +11,9 @@ EXTENDS Inputs
 Flags == {"channel", "time_signature", "key_signature", "velocity"}
 SigStreamOf(evs, kind) == LET s == SigsOf(evs, kind) IN [i \in DOMAIN s |-> <<s[i].t, SigVal(s[i])>>]
 Content(abs) == LET e == AbsEvents(abs) IN
-    [notes |-> Notes(e), ts |-> SigStreamOf(e, "ts"), ks |-> SigStreamOf(e, "ks")]
-Channels(c) == {x.ch : x \in c.notes}
+    [notes |-> Notes(e), ts |-> SigStreamOf(e, "ts"), ks |-> SigStreamOf(e, "ks"), chans |-> {e[i].ch : i \in DOMAIN e}]
+(* channels of ALL events: a sequence whose signature sits on another channel than its notes is not single-channel *)
+Channels(c) == c.chans
 (* strict projection: the channel is blanked only for the property's case, a single-channel sequence *)
 Proj(c, fl, blankCh) ==
     [notes |-> {[ch |-> IF blankCh THEN 0 ELSE x.ch, p |-> x.p, s |-> x.s, e |-> x.e,
@@ -42,7 +43,7 @@ CONSTANTS Bases
 VARIABLES base, other, kind
 vars == <<base, other, kind>>
 Kinds == {"none", "pitch", "onset", "duration", "velocity", "channel-uniform", "channel-one-note", "ts-value", "ts-tick",
-          "ks-value", "ks-tick"}
+          "ts-tick-far", "ks-value", "ks-tick", "ks-tick-far"}
 EInit == base \in Bases /\ other = base /\ kind = "none"
 MapNote(sc, x, y) == [sc EXCEPT !.notes = (@ \ {x}) \cup {y}]
 MapExtra(sc, m, n) == [sc EXCEPT !.extras = (@ \ {m}) \cup {n}]
@@ -55,23 +56,26 @@ NoteVariant(x, k) == CASE k = "pitch" -> [x EXCEPT !.p = @ + 1]
                        [] k = "channel-one-note" -> [x EXCEPT !.ch = @ + 1]
 SigVariant(m, k) == CASE k = "ts-value" -> [m EXCEPT !.n = @ + 1]
                       [] k = "ts-tick" -> [m EXCEPT !.t = @ + 1]
+                      [] k = "ts-tick-far" -> [m EXCEPT !.t = @ + 7]      \* past the first notes: the first message changes
+                      [] k = "ks-tick-far" -> [m EXCEPT !.t = @ + 7]
                       [] k = "ks-value" -> [m EXCEPT !.k = IF @ = "G" THEN "D" ELSE "G"]
                       [] k = "ks-tick" -> [m EXCEPT !.t = @ + 1]
 (* all single-attribute perturbations of a base score that stay well-formed *)
 Perturbed(b) ==
     {r \in {[kind |-> k, other |-> MapNote(b, x, NoteVariant(x, k))] : k \in NoteKinds5, x \in b.notes} : Legal(r.other)}
-    \cup (IF Cardinality({x.ch : x \in b.notes}) = 1
-          THEN {[kind |-> "channel-uniform", other |-> [b EXCEPT !.notes = {[x EXCEPT !.ch = @ + 1] : x \in @}]]} ELSE {})
-    \cup {[kind |-> k, other |-> MapExtra(b, m, SigVariant(m, k))] : k \in {"ts-value", "ts-tick"}, m \in {e \in b.extras : e.ty = "ts"}}
-    \cup {[kind |-> k, other |-> MapExtra(b, m, SigVariant(m, k))] : k \in {"ks-value", "ks-tick"}, m \in {e \in b.extras : e.ty = "ks"}}
+    \cup (IF Cardinality({x.ch : x \in b.notes} \cup {m.ch : m \in b.extras}) = 1
+          THEN {[kind |-> "channel-uniform", other |-> [b EXCEPT !.notes = {[x EXCEPT !.ch = @ + 1] : x \in @},
+                                                                 !.extras = {[m EXCEPT !.ch = @ + 1] : m \in @}]]} ELSE {})
+    \cup {[kind |-> k, other |-> MapExtra(b, m, SigVariant(m, k))] : k \in {"ts-value", "ts-tick", "ts-tick-far"}, m \in {e \in b.extras : e.ty = "ts"}}
+    \cup {[kind |-> k, other |-> MapExtra(b, m, SigVariant(m, k))] : k \in {"ks-value", "ks-tick", "ks-tick-far"}, m \in {e \in b.extras : e.ty = "ks"}}
 Perturb == /\ kind = "none"
            /\ \E r \in Perturbed(base) : kind' = r.kind /\ other' = r.other
            /\ UNCHANGED base
 ENext == Perturb
 ContentOfScore(sc) == Content(AbsOfNotes(sc.notes, sc.extras, sc.dur))
 FlagOf(k) == CASE k \in {"channel-uniform", "channel-one-note"} -> "channel"
-               [] k \in {"ts-value", "ts-tick"} -> "time_signature"
-               [] k \in {"ks-value", "ks-tick"} -> "key_signature"
+               [] k \in {"ts-value", "ts-tick", "ts-tick-far"} -> "time_signature"
+               [] k \in {"ks-value", "ks-tick", "ks-tick-far"} -> "key_signature"
                [] k = "velocity" -> "velocity"
                [] OTHER -> "no-flag"
 (* the property's table: a single-attribute difference is relaxed by exactly its own flag *)
@@ -80,6 +84,7 @@ TableHolds ==
     \A fl \in SUBSET Flags :
        /\ kind = "none" => MustEqual(a, b, fl)
        /\ (kind # "none" /\ FlagOf(kind) \notin fl) => MustDiffer(a, b, fl)
-       /\ (kind \in {"velocity", "ts-value", "ts-tick", "ks-value", "ks-tick", "channel-uniform"} /\ FlagOf(kind) \in fl) => MustEqual(a, b, fl)
+       /\ (kind \in {"velocity", "ts-value", "ts-tick", "ts-tick-far", "ks-value", "ks-tick", "ks-tick-far", "channel-uniform"}
+             /\ FlagOf(kind) \in fl) => MustEqual(a, b, fl)
        /\ ~(MustEqual(a, b, fl) /\ MustDiffer(a, b, fl))
 =============================================================================
